@@ -24,7 +24,7 @@ def _seed_task(seed):
 
 
 def explicit_spec(spec, out):
-    s = {k: v for k, v in spec.items() if k not in ("p", "loc_cap", "max_switches", "p_hot", "strategy")}
+    s = {k: v for k, v in spec.items() if k not in ("p", "loc_cap", "max_switches", "p_hot", "strategy", "hot_skip")}
     s["schedule"] = out["schedule"]
     return s
 
